@@ -35,7 +35,13 @@ func init() {
 		"upper":     reflect.ValueOf(strings.ToUpper),
 		"hasPrefix": reflect.ValueOf(strings.HasPrefix),
 		"hasSuffix": reflect.ValueOf(strings.HasSuffix),
-		"repeat":    reflect.ValueOf(strings.Repeat),
+		"repeat": reflect.ValueOf(func(s string, count int) string {
+			if count < 0 {
+				// (strings.Repeat panics with a string, which Execute does not turn into an error)
+				panic(fmt.Errorf("repeat: negative count %d", count))
+			}
+			return strings.Repeat(s, count)
+		}),
 		"replace":   reflect.ValueOf(strings.Replace),
 		"split":     reflect.ValueOf(strings.Split),
 		"trimSpace": reflect.ValueOf(strings.TrimSpace),
